@@ -192,6 +192,9 @@ def run_hypothesis(ctx, test_body, strategy, max_examples, shard=0, stateful=Non
 def _worker(args):
     prop, tier, seed, name, kwargs, replay_case = args
     t0 = time.time()
+    import logging
+
+    logging.disable(logging.CRITICAL)
     try:
         mod = importlib.import_module("props." + prop)
         known = findings.Findings.load()
